@@ -27,8 +27,12 @@ def verify(d):
         rc, out = sh("/venv/bin/python %s/demo.py" % d, cwd=wt)
         res["demo_patched_rc"] = rc
         res["demo_patched_out"] = out[-300:]
-        rc, out = sh("/venv/bin/python -m pytest -q -p no:cacheprovider --timeout=900 --continue-on-collection-errors 2>&1 | tail -1", cwd=wt)
-        res["suite"] = out.strip()[-120:]
+        for attempt in range(2):      # one retry: a test of the suite is occasionally flaky under load
+            rc, out = sh("/venv/bin/python -m pytest -q -p no:cacheprovider --timeout=900 --continue-on-collection-errors 2>&1 | tail -1", cwd=wt)
+            res["suite"] = out.strip()[-120:]
+            sh("git checkout -q -- data", cwd=wt)
+            if "159 passed" in res["suite"]:
+                break
         res["ok"] = res["demo_clean_rc"] == 0 and res["apply_rc"] == 0 and res["demo_patched_rc"] != 0 and "159 passed" in res["suite"] and "failed" not in res["suite"]
         return res
     finally:
